@@ -48,9 +48,38 @@ class _Rename(ast.NodeTransformer):
         return node
 
     def visit_FunctionDef(self, node):
-        return node  # nested defs keep their own scope (free variables are not renamed: conservative)
+        # a nested def: its name is a local of the helper (renamed apart); inside, only FREE names are substituted
+        own = {a.arg for a in node.args.posonlyargs + node.args.args + node.args.kwonlyargs}
+        if node.args.vararg:
+            own.add(node.args.vararg.arg)
+        if node.args.kwarg:
+            own.add(node.args.kwarg.arg)
+        own |= _assigned(node.body)
+        inner = _Rename({k: v for k, v in self.mapping.items() if k not in own})
+        node.body = [inner.visit(st) for st in node.body]
+        node.args.defaults = [self.visit(d) for d in node.args.defaults]
+        new_name = self.mapping.get(node.name)
+        if isinstance(new_name, str):
+            node.name = new_name
+        return node
 
-    visit_Lambda = visit_FunctionDef
+    def visit_Lambda(self, node):
+        own = {a.arg for a in node.args.posonlyargs + node.args.args + node.args.kwonlyargs}
+        inner = _Rename({k: v for k, v in self.mapping.items() if k not in own})
+        node.body = inner.visit(node.body)
+        return node
+
+
+def _walk_own(st: ast.AST):
+    """ast.walk that does not descend into nested function bodies."""
+    todo = [st]
+    while todo:
+        n = todo.pop()
+        yield n
+        for c in ast.iter_child_nodes(n):
+            if isinstance(c, (ast.FunctionDef, ast.AsyncFunctionDef, ast.Lambda, ast.ClassDef)):
+                continue
+            todo.append(c)
 
 
 def _strip_doc(body: List[ast.stmt]) -> List[ast.stmt]:
@@ -83,12 +112,12 @@ def _assigned(body: List[ast.stmt]) -> Set[str]:
 
 
 def _has_inner_return(body: List[ast.stmt]) -> bool:
-    """a return anywhere except as the very last top-level statement."""
+    """a return anywhere except as the very last top-level statement (returns of nested defs are their own)."""
     for i, st in enumerate(body):
         last = i == len(body) - 1
-        for n in ast.walk(st):
-            if isinstance(n, (ast.FunctionDef, ast.Lambda, ast.AsyncFunctionDef)) and n is not st:
-                continue
+        if isinstance(st, (ast.FunctionDef, ast.AsyncFunctionDef, ast.ClassDef)):
+            continue
+        for n in _walk_own(st):
             if isinstance(n, ast.Return) and not (last and n is st):
                 return True
             if isinstance(n, (ast.Yield, ast.YieldFrom)):
@@ -97,12 +126,9 @@ def _has_inner_return(body: List[ast.stmt]) -> bool:
 
 
 def _contains_return(st: ast.AST) -> bool:
-    for n in ast.walk(st):
-        if isinstance(n, (ast.FunctionDef, ast.Lambda, ast.AsyncFunctionDef)) and n is not st:
-            continue
-        if isinstance(n, ast.Return):
-            return True
-    return False
+    if isinstance(st, (ast.FunctionDef, ast.AsyncFunctionDef, ast.ClassDef)):
+        return False
+    return any(isinstance(n, ast.Return) for n in _walk_own(st))
 
 
 def _structure_returns(stmts: List[ast.stmt], ret: str):
